@@ -8,6 +8,13 @@
 (*   Dispatch  farm.dispatch -> schedule.next_job_batch (status running)   *)
 (*   Complete  farm.Hand._res -> schedule.complete                         *)
 (*   NewTarget a target becomes known to the database                      *)
+(*   LateTick  the reactor runs the earliest request LATE (busy reactor,   *)
+(*             suspended host): the pass happens after the moment it was   *)
+(*             armed for, possibly by more than the firing window          *)
+(*   Pause / Unpause  the operator holds the pipeline: a defer pass only   *)
+(*             asks to be called again Poll seconds later, nothing is      *)
+(*             dispatched; Skip = the clock moves while only such polls    *)
+(*             happen                                                      *)
 (*                                                                         *)
 (* One or two periodic nodes (task or analysis) in DIFFERENT packages,     *)
 (* without data dependencies between them, each with its own set of        *)
@@ -39,7 +46,9 @@ EXTENDS Moment
 CONSTANTS Fire,      \* "pinned" | "rearm": which schedule.defer the transition system transcribes
           Configs,   \* set of [start : Nat, nodes : [tags -> [kind : {"task","analysis"}, events : SUBSET EventSpec]]]
           MaxEnv,    \* bound on environment steps (Tick, Advance, NewTarget)
-          Jumps      \* clock increments the environment may choose
+          Jumps,     \* clock increments the environment may choose
+          Lates,     \* how late a timer wake-up may run ({}: never late)
+          Pausing    \* BOOLEAN: may the operator pause the pipeline
 
 ALL == "__all__"
 T1  == "T1"
@@ -57,9 +66,11 @@ VARIABLES cfg,       \* the configuration (constant along a behaviour)
           targets,   \* dawgie.db.targets()
           lastFire,  \* [node -> instant of the last firing (-1: never)]; history variable of the property
           served,    \* [node -> [event -> the occurrence it last fired for (-1: none)]]  node attribute 'served' ("rearm")
-          env        \* environment steps left
+          env,       \* environment steps left
+          paused     \* the operator holds the pipeline (schedule.pause()): ENVIRONMENT input
 
-fvars == <<cfg, up, clock, timers, status, queued, todo, exec, booted, targets, lastFire, served, env>>
+fvars == <<cfg, up, clock, timers, status, queued, todo, exec, booted, targets, lastFire, served, env, paused>>
+Poll == 10           \* a defer pass of a paused pipeline asks to be called again after 10 s
 
 Nodes      == DOMAIN cfg.nodes
 Kind(n)    == cfg.nodes[n].kind
@@ -106,6 +117,10 @@ DeferRearm(c, T) ==
        /\ served'   = [n \in Nodes |-> [e \in Ev(n) |-> IF e \in Fresh(n) THEN c + DelayOf(n, e, c).d ELSE served[n][e]]]
 
 Defer(c, T) == IF Fire = "pinned" THEN DeferPinned(c, T) ELSE DeferRearm(c, T)
+(* a pass of a paused pipeline only polls again *)
+Pass(c, T)  == IF paused THEN /\ timers' = T \cup {c + Poll}
+                              /\ UNCHANGED <<status, queued, todo, booted, lastFire, served>>
+               ELSE Defer(c, T)
 
 FInit == /\ cfg \in Configs
          /\ up = FALSE /\ clock = cfg.start /\ timers = {}
@@ -113,43 +128,70 @@ FInit == /\ cfg \in Configs
          /\ todo = [n \in Nodes |-> {}] /\ exec = [n \in Nodes |-> {}]
          /\ booted = {} /\ targets = {T1} /\ lastFire = [n \in Nodes |-> -1] /\ env = MaxEnv
          /\ served = [n \in Nodes |-> [e \in Ev(n) |-> -1]]
+         /\ paused = FALSE
 
 Boot == /\ ~up /\ up' = TRUE
         /\ Defer(clock, timers)
-        /\ UNCHANGED <<cfg, clock, exec, targets, env>>
+        /\ UNCHANGED <<cfg, clock, exec, targets, env, paused>>
 
 Tick == /\ up /\ env > 0 /\ timers # {} /\ Min(timers) < Horizon
         /\ clock' = Min(timers)
-        /\ Defer(Min(timers), timers \ {Min(timers)})
+        /\ Pass(Min(timers), timers \ {Min(timers)})
         /\ env' = env - 1
-        /\ UNCHANGED <<cfg, up, exec, targets>>
+        /\ UNCHANGED <<cfg, up, exec, targets, paused>>
+
+(* the earliest request runs dt seconds late (no other request falls due meanwhile) *)
+LateTick(dt) == /\ up /\ env > 0 /\ timers # {} /\ Min(timers) + dt < Horizon
+                /\ \A t \in timers : t = Min(timers) \/ t > Min(timers) + dt
+                /\ clock' = Min(timers) + dt
+                /\ Pass(Min(timers) + dt, timers \ {Min(timers)})
+                /\ env' = env - 1
+                /\ UNCHANGED <<cfg, up, exec, targets, paused>>
+
+Pause   == /\ Pausing /\ up /\ env > 0 /\ ~paused
+           /\ paused' = TRUE /\ env' = env - 1
+           /\ UNCHANGED <<cfg, up, clock, timers, status, queued, todo, exec, booted, targets, lastFire, served>>
+Unpause == /\ up /\ env > 0 /\ paused
+           /\ paused' = FALSE /\ env' = env - 1
+           /\ UNCHANGED <<cfg, up, clock, timers, status, queued, todo, exec, booted, targets, lastFire, served>>
+
+(* the clock of a PAUSED pipeline moves by dt across its polls: every pass on the
+   way (the first at the pending request t0, then every Poll seconds) only polls
+   again; the request left pending is that of the last pass at or before clock + dt *)
+Skip(dt) == /\ up /\ env > 0 /\ paused /\ clock + dt < Horizon
+            /\ timers # {} /\ Min(timers) <= clock + dt
+            /\ \A t \in timers : t = Min(timers)
+            /\ clock' = clock + dt /\ env' = env - 1
+            /\ timers' = {Min(timers) + Poll * ((clock + dt - Min(timers)) \div Poll + 1)}
+            /\ UNCHANGED <<cfg, up, status, queued, todo, exec, booted, targets, lastFire, served, paused>>
 
 Advance(dt) == /\ up /\ env > 0 /\ clock + dt < Horizon
                /\ timers # {} => clock + dt < Min(timers)
                /\ clock' = clock + dt /\ env' = env - 1
-               /\ UNCHANGED <<cfg, up, timers, status, queued, todo, exec, booted, targets, lastFire, served>>
+               /\ UNCHANGED <<cfg, up, timers, status, queued, todo, exec, booted, targets, lastFire, served, paused>>
 
 (* one farm.dispatch releases everything that can be released (the nodes do not depend on each other) *)
 Avail(n) == IF ~queued[n] \/ ALL \in exec[n] THEN {} ELSE todo[n] \ exec[n]
-Dispatch == /\ up /\ \E n \in Nodes : Avail(n) # {}
+Dispatch == /\ up /\ ~paused /\ \E n \in Nodes : Avail(n) # {}      \* next_job_batch releases nothing while paused
             /\ exec'   = [n \in Nodes |-> exec[n] \cup Avail(n)]
             /\ todo'   = [n \in Nodes |-> todo[n] \ Avail(n)]
             /\ status' = [n \in Nodes |-> IF Avail(n) # {} THEN "running" ELSE status[n]]
-            /\ UNCHANGED <<cfg, up, clock, timers, queued, booted, targets, lastFire, served, env>>
+            /\ UNCHANGED <<cfg, up, clock, timers, queued, booted, targets, lastFire, served, env, paused>>
 
 Complete(n, x) == /\ x \in exec[n]
                   /\ exec' = [exec EXCEPT ![n] = @ \ {x}]
                   /\ IF todo[n] = {} /\ exec'[n] = {}
                      THEN queued' = [queued EXCEPT ![n] = FALSE] /\ status' = [status EXCEPT ![n] = "waiting"]
                      ELSE UNCHANGED <<queued, status>>
-                  /\ UNCHANGED <<cfg, up, clock, timers, todo, booted, targets, lastFire, served, env>>
+                  /\ UNCHANGED <<cfg, up, clock, timers, todo, booted, targets, lastFire, served, env, paused>>
 
 NewTarget == /\ up /\ env > 0 /\ T2 \notin targets
              /\ targets' = targets \cup {T2} /\ env' = env - 1
-             /\ UNCHANGED <<cfg, up, clock, timers, status, queued, todo, exec, booted, lastFire, served>>
+             /\ UNCHANGED <<cfg, up, clock, timers, status, queued, todo, exec, booted, lastFire, served, paused>>
 
-FNext == \/ Boot \/ Tick \/ Dispatch \/ NewTarget
-         \/ \E dt \in Jumps : Advance(dt)
+FNext == \/ Boot \/ Tick \/ Dispatch \/ NewTarget \/ Pause \/ Unpause
+         \/ \E dt \in Jumps : Advance(dt) \/ Skip(dt)
+         \/ \E dt \in Lates : LateTick(dt)
          \/ \E n \in Nodes : \E x \in exec[n] : Complete(n, x)
 
 FSpec == FInit /\ [][FNext]_fvars
@@ -177,15 +219,33 @@ Justified(n)    == \E m \in AllOcc(n) : m - Window <= clock'
 BootOnceStep(n) == (Fired(n) /\ (up \/ BootEv(n) = {})) => Justified(n)
 
 (* every periodic node that is neither queued nor executing has a pending
-   timer that re-evaluates it no later than its next occurrence *)
-Armed(n) == (up /\ ~Busy(n)) => (Upcoming(n, clock) = {} \/ \E t \in timers : \A m \in Upcoming(n, clock) : t <= m)
+   timer that re-evaluates it no later than its next occurrence (a held
+   pipeline polls; what it owes is CatchUpStep's business) *)
+Armed(n) == (up /\ ~Busy(n) /\ ~paused) => (Upcoming(n, clock) = {} \/ \E t \in timers : \A m \in Upcoming(n, clock) : t <= m)
 
 (* while the pipeline stays up a timed event fires again each period: when
    the clock passes an occurrence the node is fired for it (at most Window
-   early), unless it was still queued or executing when the moment came *)
+   early), unless it was still queued or executing when the moment came -- or
+   the operator holds the pipeline at that instant: then the occurrence is
+   owed to the first pass of the released pipeline (CatchUpStep).  A wake-up
+   that merely runs late is NOT exempt: the step that carries the clock over
+   the moment is the pass itself. *)
 Crossed(n, c1, c2) == { m \in AllOcc(n) : c1 < m /\ m <= c2 }
 RecursStep(n) == (up /\ clock' > clock) =>
-                    \A m \in Crossed(n, clock, clock') : Busy(n) \/ lastFire'[n] >= m - Window
+                    \A m \in Crossed(n, clock, clock') : Busy(n) \/ paused' \/ lastFire'[n] >= m - Window
+
+(* no occurrence is skipped while the pipeline stays up: after a defer pass
+   that can act (the pipeline is not held; observable: the pending timer
+   requests changed) every occurrence of the current day that came while the
+   pipeline was up has been fired for, however late the pass is -- unless the
+   node was queued or executing when the pass ran.  "Of the current day" is
+   the same reading as in OnceStep: a firing is the firing for m until the
+   end of m's day. *)
+EndOfDay(m)    == (m \div DAY + 1) * DAY
+ActingPass     == up /\ ~paused /\ ~paused' /\ timers' # timers
+CatchUpStep(n) == ActingPass =>
+                    \A m \in AllOcc(n) : (cfg.start < m /\ m <= clock' /\ clock' < EndOfDay(m)) =>
+                                            (Busy(n) \/ lastFire'[n] >= m - Window)
 
 (* ... and once per occurrence: two firings of a node are not both the firing
    for the same moment m (a firing is "for m" from Window before m until the
@@ -200,6 +260,7 @@ C20_BootFires   == [][\A n \in Nodes : BootFiresStep(n)]_fvars
 C20_BootOnce    == [][\A n \in Nodes : BootOnceStep(n)]_fvars
 C20_Armed       == \A n \in Nodes : Armed(n)
 C20_Recurs      == [][\A n \in Nodes : RecursStep(n)]_fvars
+C20_CatchUp     == [][\A n \in Nodes : CatchUpStep(n)]_fvars
 
 (* the recorded finding (DESIGN section 6, #11): after the firing completes the
    node keeps status `waiting`, which defer() skips, and nothing re-arms *)
